@@ -7,7 +7,7 @@ import sys
 
 from .common import seed_from_env
 from .nscheck import run_property
-from .nsruns import std_spec
+from .nsruns import std_spec, ins_spec
 
 PROP = "C15"
 
@@ -52,9 +52,46 @@ def corpus(tier, seed):
     return specs
 
 
+def ins_corpus(tier, seed):
+    s = seed * 1000 + 750
+    specs = [
+        ins_spec("gauss2", s + 1, 100, run_again=1, resume_after_done=1),
+        ins_spec("gauss2", s + 2, 100, stopping_criterion=["log_dZ", "ratio"], tolerance=[0.05, 0.5],
+                 check_criteria="all", max_iteration=8, run_again=1),
+        ins_spec("rosen2", s + 3, 100, stopping_criterion=["ess", "Z_err", "ratio"], tolerance=[-1.0, 1.2, 0.2],
+                 check_criteria="any", max_iteration=8),
+        ins_spec("gauss2", s + 4, 100, stopping_criterion=["evidence_error", "log_evidence"], tolerance=[1.05, 0.02],
+                 check_criteria="any", min_iteration=3, max_iteration=8, resume_after_done=1),
+        ins_spec("gauss4", s + 5, 100, stopping_criterion="fractional_error", tolerance=0.1, max_iteration=3,
+                 run_again=1),
+        ins_spec("gauss2", s + 6, 100, stopping_criterion=["ratio_ns", "ratio_all"], tolerance=[-0.5, 1.0],
+                 check_criteria="all", min_iteration=2, max_iteration=7, draw_iid_live=False),
+    ]
+    if tier == "thorough":
+        import itertools
+        import random
+
+        rng = random.Random(seed)
+        names = ["ratio", "ratio_all", "ratio_ns", "Z_err", "evidence_error", "log_dZ", "log_evidence", "ess",
+                 "fractional_error"]
+        tols = {"ratio": 0.3, "ratio_all": 0.3, "ratio_ns": 0.0, "Z_err": 1.1, "evidence_error": 1.1, "log_dZ": 0.03,
+                "log_evidence": 0.03, "ess": -1.0, "fractional_error": 0.08}
+        k = 7
+        for n in (1, 2, 3):
+            for _ in range(8):
+                cs = rng.sample(names, n)
+                specs.append(ins_spec(rng.choice(["gauss2", "rosen2"]), s + k, 100, stopping_criterion=cs,
+                                      tolerance=[tols[c] * rng.choice([0.5, 1.0, 2.0]) for c in cs],
+                                      check_criteria=rng.choice(["any", "all"]),
+                                      min_iteration=rng.choice([None, 0, 2, 4]), max_iteration=rng.choice([3, 6, 9]),
+                                      run_again=1, resume_after_done=k % 2))
+                k += 1
+    return specs
+
+
 def main(tier: str) -> int:
     seed = seed_from_env()
-    return run_property(PROP, tier, corpus(tier, seed), sig_of=sig_of, capit=2,
+    return run_property(PROP, tier, corpus(tier, seed), sig_of=sig_of, capit=2, ins_specs=ins_corpus(tier, seed),
                         note="Every iteration logs the condition compared with the tolerance; an iteration event is "
                              "only legal while the previous condition exceeded the tolerance, finalise only when it no "
                              "longer does; after Done the run is run again in-process and resumed from the final "
